@@ -664,12 +664,15 @@ class Parser:
         for atom, tok in atoms:
             fn = "superhelp" if tok.is_exact_type("??") else "help"
             if node is None:
-                node = xonsh_call(f"__xonsh__.{fn}", atom, **tok.loc())
+                # the call stands for `atom?`: it spans from the atom to the question mark(s)
+                locs = {"lineno": atom.lineno, "col_offset": atom.col_offset, **tok.loc_end()}
+                node = xonsh_call(f"__xonsh__.{fn}", atom, **locs)
             else:
+                locs = {"lineno": node.lineno, "col_offset": node.col_offset, **tok.loc_end()}
                 node = xonsh_call(
                     f"__xonsh__.{fn}",
-                    ast.Attribute(value=node, attr=atom.id, ctx=Load, **tok.loc()),
-                    **tok.loc(),
+                    ast.Attribute(value=node, attr=atom.id, ctx=Load, **locs),
+                    **locs,
                 )
         return node
 
